@@ -207,7 +207,7 @@ Proof.
   intros Hm Hp HI Hlr Hab aa bb Hside Fa Fb.
   apply (truncated_is_RInt (vg_nu c lm lp) 0%nat _ (fun x y => (0 < x \/ y < 0) /\ - INF < x /\ y < INF)); try assumption.
   - intros x y Hxy (Hs & Fx & Fy). apply vg_mass_is_RInt; assumption.
-  - fold aa bb. repeat split; assumption.
+  - intros _. fold aa bb. repeat split; assumption.
 Qed.
 
 (* ------------------------------------------------------------------ statements of Properties/C09.v assembled from the lemmas above *)
